@@ -70,6 +70,15 @@ def _report(ctx, frames, reads, d, direction):
 
 
 def run(ctx):
+    from harness.replay.framing import CodeUnderTestFailure
+    try:
+        _run(ctx)
+    except CodeUnderTestFailure as exc:
+        ctx.violation("the connection cannot be brought up over the read path under test: %s" % exc,
+                      replay={"kind": "handshake", "what": str(exc)}, signature="handshake-over-read-path-fails")
+
+
+def _run(ctx):
     from harness.replay import framing as rf
     h = rf.FramingHarness()
     t0 = time.time()
@@ -318,6 +327,10 @@ def wire_hdr(ver):
 def replay(ctx, obj):
     """Re-execute a replay file: feed the reads into a fresh real connection and print the projection."""
     from harness.replay import framing as rf
+    if obj.get("kind") == "handshake":
+        rf.open_connection(4)
+        print("handshake completed")
+        return
     if obj.get("kind") != "reads":
         for s in obj.get("trace", []):
             print(s)
